@@ -3,7 +3,8 @@
 Workload: corpus, mutated corpus, token soup, exhaustive short token sequences in three
 contexts, nesting stress (<= 256), size stress (<= 64 KiB), module sets, every function body of <= 4/5 statements over
 the statement-placement and goto/label alphabets, random dependency graphs (cycles of length 1-5 in every order).
-Oracle: exit-state classifier over the worker (real penne API driven as main.rs does)."""
+Oracle: exit-state classifier over the worker (real penne API driven as main.rs does, including the rendering of
+every diagnostic and lint in the four colour/charset configurations)."""
 import json
 import os
 import time
@@ -17,7 +18,7 @@ MAX_BYTES = 64 * 1024
 
 def compile_request(files, wasm=False):
     return {"op": "alpha_compile", "files": [{"path": p, "src": s} for p, s in files], "wasm": wasm,
-            "ir": True, "module_ir": True}
+            "ir": True, "module_ir": True, "render": True}
 
 
 def classify(files, build, wasm=False, timeout=30.0):
